@@ -217,7 +217,7 @@ class RenderContext:
                 return obj["size"]
             except (KeyError, IndexError, TypeError):
                 if isinstance(obj, Sized):
-                    return len(obj)
+                    return _size(obj)
                 raise
         if key == "first":
             try:
@@ -254,7 +254,7 @@ class RenderContext:
                 return await _get_item(obj, "size")
             except (KeyError, IndexError, TypeError):
                 if isinstance(obj, Sized):
-                    return len(obj)
+                    return _size(obj)
                 raise
         if key == "first":
             try:
@@ -492,6 +492,16 @@ class BuiltIn(Mapping[str, object]):
 
 
 builtin = BuiltIn()
+
+
+def _size(obj: Sized) -> int:
+    """`len(obj)`, also for ranges longer than `sys.maxsize`."""
+    try:
+        return len(obj)
+    except OverflowError:
+        if isinstance(obj, range):
+            return max(0, (obj.stop - obj.start + obj.step - 1) // obj.step)
+        raise
 
 
 RE_PROPERTY = re.compile(r"[\u0080-\uFFFFa-zA-Z_][\u0080-\uFFFFa-zA-Z0-9_-]*")
